@@ -1348,6 +1348,10 @@ func (repo *Repository) load(ctx context.Context, depth int) error {
 		repo.branches = append(repo.branches, branch)
 	}
 
+	// A branch that could not be linked was dropped above, so it can't be the longest. That
+	// happens when the index is older than the header files: the process stopped inside a save.
+	repo.longest = repo.branches.Longest()
+
 	if err := repo.loadHistoricalHashHeights(ctx); err != nil {
 		return errors.Wrap(err, "historical heights")
 	}
